@@ -133,7 +133,9 @@ def apply_case(text, how):
     return text
 
 
-JOINERS = ["", " ", " of ", " of the ", "  ", " of\n", "\n", " OF ", " OF THE ", " Of The "]
+JOINERS = ["", " ", " of ", " of the ", "  ", " of\n", "\n", " OF ", " OF THE ", " Of The ",
+           # a chain wrapped onto an indented continuation line, Windows line ends, wide gaps
+           "\r\n", " of the\r\n", "\n        ", " of the\n        ", "      ", " " * 14, " of\r\n    "]
 
 
 import functools
